@@ -27,7 +27,7 @@ HOSTILE = ['', ' ', 'abc', '-', '1e999', '9' * 400, '2020-13-45', '2020-01-01T25
 RAN = []
 
 
-def mkapp(inp, outp):
+def mkapp(inp, outp, header=False):
     from spyne import (Application, Service, srpc, Integer, Unicode, ComplexModel, Array, Boolean, Date, DateTime,
                        Time, Duration, Decimal, Double, ByteArray, Uuid, Integer8, UnsignedInteger16, Enum)
     Color = Enum('red', 'green', type_name='Color')
@@ -40,7 +40,14 @@ def mkapp(inp, outp):
         arr = Array(Integer); m = Integer(max_occurs='unbounded')
         aa = Array(Array(Integer))
 
+    class Hdr(ComplexModel):
+        __namespace__ = 'tns'
+        who = Unicode
+
     class S(Service):
+        if header:
+            __in_header__ = Hdr          # (the envelope protocols with a header slot of their own: JsonRpc)
+
         @srpc(C, Integer, Array(C), _returns=Integer)
         def f(c, n, cs):
             RAN.append(1)
@@ -163,7 +170,7 @@ class Family(object):
 def families():
     from spyne.protocol.soap import Soap11, Soap12
     from spyne.protocol.xml import XmlDocument
-    from spyne.protocol.json import JsonDocument
+    from spyne.protocol.json import JsonDocument, JsonRpc
     from spyne.protocol.yaml import YamlDocument
     from spyne.protocol.msgpack import MessagePackDocument, MessagePackRpc
     from spyne.protocol.http import HttpRpc
@@ -187,6 +194,9 @@ def families():
         Family('http_xmlout', HttpRpc, XmlDocument, None, kind='flat', out='xml'),
         Family('json_soapout', JsonDocument, Soap11, 'application/json', dump=lambda d: json.dumps(d).encode(), kind='dict', out='soap11'),
         Family('yaml_httpout', YamlDocument, HttpRpc, 'text/yaml', dump=lambda d: yaml.safe_dump(d).encode(), kind='dict', out='httprpc'),
+        # the JSON envelope protocol JsonRpc('spyne'): {"ver": 1, "head": ..., "body": {method: arguments}} (answers in plain JSON)
+        Family('jsonrpc', lambda **kw: JsonRpc('spyne', **kw), JsonDocument, 'application/json',
+               dump=lambda d: json.dumps({'ver': 1, 'body': d}).encode(), kind='dict', out='json'),
         # wrapper documents (ignore_wrappers=False)
         Family('json_w', lambda **kw: JsonDocument(ignore_wrappers=False, **kw), JsonDocument, 'application/json',
                dump=lambda d: json.dumps(d).encode(), kind='dict', jreq=jreq_w),
@@ -316,6 +326,17 @@ def corpus(fam, quick):
             if fam.kind == 'dict' and fam.name.startswith('msgpack'):
                 out.append(('deep[%d' % n, {}, b'\x91' * n))
                 out.append(('deep{%d' % n, {}, b'\x81\xa1f' * n))
+        if fam.name == 'jsonrpc':
+            inner = fam.jreq(VAL)
+            for label, doc in [('head-int', {'ver': 1, 'head': 5, 'body': inner}), ('head-list-int', {'ver': 1, 'head': [5], 'body': inner}),
+                               ('head-str', {'ver': 1, 'head': 'abc', 'body': inner}), ('head-map', {'ver': 1, 'head': {'who': 'me'}, 'body': inner}),
+                               ('head-list-map', {'ver': 1, 'head': [{'who': ['x']}], 'body': inner}), ('head-null', {'ver': 1, 'head': None, 'body': inner}),
+                               ('fault-int', {'ver': 1, 'fault': 5}), ('fault-map', {'ver': 1, 'fault': {'faultcode': 'x'}}),
+                               ('fault-and-body', {'ver': 1, 'fault': {'faultcode': 'Client.X', 'faultstring': 's'}, 'body': inner}),
+                               ('no-ver', {'body': inner}), ('ver-2', {'ver': 2, 'body': inner}), ('ver-str', {'ver': '1', 'body': inner}),
+                               ('body-list', {'ver': 1, 'body': [inner]}), ('body-two', {'ver': 1, 'body': {'f': {}, 'g': {}}}), ('body-null', {'ver': 1, 'body': None}),
+                               ('root-list', [1]), ('root-int', 5), ('empty-map', {})]:
+                out.append(('envelope ' + label, {}, json.dumps(doc).encode()))
         if fam.name == 'mprpc':
             import msgpack
             for label, doc in [('name-not-utf8', [0, 1, b'\xff\xfe', []]), ('type-notify', [2, 1, 'f', []]), ('type-response', [1, 1, 'f', []]),
@@ -428,7 +449,7 @@ logging.disable(logging.CRITICAL)
 from harness.checks import c10
 from spyne.server.wsgi import WsgiApplication
 fam = [f for f in c10.families() if f.name == %(fam)r][0]
-w = WsgiApplication(c10.mkapp(fam.mk_in(validator='soft'), fam.mk_out()))
+w = WsgiApplication(c10.mkapp(fam.mk_in(validator='soft'), fam.mk_out(), header=fam.name == 'jsonrpc'))
 body = %(body)s
 env = {'REQUEST_METHOD': 'POST', 'PATH_INFO': '/', 'QUERY_STRING': '', 'CONTENT_TYPE': fam.ctype, 'wsgi.input': io.BytesIO(body),
        'wsgi.url_scheme': 'http', 'SERVER_NAME': 'x', 'SERVER_PORT': '80', 'CONTENT_LENGTH': str(len(body))}
@@ -478,7 +499,7 @@ def run(ctx):
     recs, meta = [], []
     for fam in families():
         for val in ('soft', None):
-            app = mkapp(fam.mk_in(validator=val), fam.mk_out())
+            app = mkapp(fam.mk_in(validator=val), fam.mk_out(), header=fam.name == 'jsonrpc')
             w = WsgiApplication(app)
             wsmall = WsgiApplication(app, max_content_length=64, block_length=16)
             sb = ServerBase(app)
